@@ -11,7 +11,7 @@ From Coq Require Import ZArith NArith List Bool Lia.
 From Stk Require Import Lib.U Gen.SrcCount Gen.SrcCore Gen.SrcLog R.Syntax R.Rt R.Mon R.Shape R.Eff R.Tags R.Mono R.C15Proofs R.Count.
 From Stk Require Import R.Nest R.C20Proofs R.Calls R.CallInv.
 From Stk Require Import R.Lin R.LinAct R.LinLaw R.LinStep R.LinEvs R.LinTail R.LinLive R.LinNin R.LinDel R.LinC05A R.LinC05Core R.LinC05B.
-From Stk Require Import R.C05Proofs R.LinC03Mon R.LinC03L.
+From Stk Require Import R.C05Proofs R.LinBody R.LinC03Mon R.LinC03L R.LinC03K R.LinC03S.
 Import ListNotations.
 Local Open Scope Z_scope.
 
@@ -73,3 +73,80 @@ Proof.
   eexists. split; [vm_compute; reflexivity|]. split; [vm_compute; reflexivity|]. split; [vm_compute; reflexivity|].
   split; [vm_compute; reflexivity|]. repeat split; vm_compute; tauto.
 Qed.
+
+(* ------------------------------------------------------------------ *)
+(** * The cause conjunct and the full C03 theorem
+
+    [okF t]: no cell is freed (model event [EModel M_FREE_ACTOR a]) while one of the methods / init steps of that
+    same actor runs (between [EMeth a] / [EPrep a] and the matching [EEnd]).  This is a refcount fact (the running
+    method holds a reference to its actor); it is a hypothesis here. *)
+
+Lemma run_invK fuel : forall k s t,
+  shape k -> Tags k s -> WF k s -> KI k s -> FK k (ctxs s) -> DT k s -> FL k s -> Tail k s -> IK k s ->
+  run fuel k s = Done t ->
+  exists s', t = rev (tr s') /\ (BadF (tr s') \/ exists m, monr stepK iK (tr s') = Some m).
+Proof.
+  induction fuel as [|f IH]; intros k s t SH TG W K F D FL_ TL I H; simpl in H.
+  - destruct k; [|discriminate]. inversion H; subst. exists s. split; auto. destruct I as [B|(m & b & M & _)]; eauto.
+  - destruct (step k s) as [[k' s']|] eqn:ST.
+    + assert (QT : QTags s) by (apply Tags_split in TG; tauto).
+      destruct (step_KI _ _ _ _ W QT K ST) as [K' _].
+      eapply IH; [ eapply step_shape; eauto | eapply step_tags; eauto | eapply step_WF; eauto | exact K'
+                 | eapply step_FK; eauto | eapply step_DT; eauto | eapply step_FL; eauto | eapply step_Tail; eauto
+                 | eapply step_IK; eauto; apply K | exact H ].
+    + inversion H; subst. exists s. split; auto. destruct I as [B|(m & b & M & _)]; eauto.
+Qed.
+
+(** the cause conjunct of C03 *)
+Theorem C03_cause_proved : forall (d : dkind) (p : list top) (fuel : nat) (t : list ev),
+  exec d fuel p = Done t -> okF t = true -> okK t = true.
+Proof.
+  intros d p fuel t H OF. unfold exec in H.
+  destruct (run_invK fuel _ _ _ (shape_init p) (tags_init d p) (WF_init d p) (KI_init d p) (FK_init d p) (DT_init d p)
+              (FL_init d p) (Tail_init d p) (IK_init d p) H) as (s' & -> & [B|(m & M)]).
+  - exfalso. unfold okF in OF. rewrite fold_mon_rev in OF. unfold BadF in B. rewrite B in OF. discriminate.
+  - unfold okK. rewrite fold_mon_rev, M. reflexivity.
+Qed.
+
+Print Assumptions C03_cause_proved.
+
+(** C03, full: for every program, fuel and deferrer kind, if the machine terminates with trace [t], [t] reports no
+    leaked closure / actor value / notifier and no cell is freed while one of its own methods runs, then the C03
+    monitor accepts [t]. *)
+Theorem C03_proved : forall (d : dkind) (p : list top) (fuel : nat) (t : list ev),
+  exec d fuel p = Done t -> no_container_leak t -> okF t = true -> C03_ok t = true.
+Proof.
+  intros d p fuel t H NL OF. apply C03_split; [eapply C03_lifecycle_proved; eauto | eapply C03_cause_proved; eauto].
+Qed.
+
+Print Assumptions C03_proved.
+
+Definition hyp03 (t : list ev) : bool := ncl_b t && okF t.
+
+Corollary C03_checked d p fuel t : exec d fuel p = Done t -> hyp03 t = true -> C03_ok t = true.
+Proof.
+  intros H HY. unfold hyp03 in HY. apply andb_prop in HY as [A B]. eapply C03_proved; eauto. apply ncl_of_b. exact A.
+Qed.
+
+Example C03_nontrivial :
+  exists t, exec DGlobal 3000 c03_prog = Done t /\ hyp03 t = true /\ C03_ok t = true /\
+            In (ENotify 1 (Some CStop)) t /\ In (ENotify 2 (Some (CKill 9))) t /\ In (ENotify 3 (Some CDrop)) t /\
+            In (EReq 1 (CFail 5)) t /\ In (EReq 1 (CKill 7)) t.
+Proof.
+  eexists. split; [vm_compute; reflexivity|]. split; [vm_compute; reflexivity|]. split; [vm_compute; reflexivity|].
+  repeat split; vm_compute; tauto.
+Qed.
+
+(* the leak hypothesis is necessary: the known findings F5 and F7 and the self-referencing actor leave a notifier and /
+   or a value owed at the end (the cause conjunct and [okF] hold in all three) *)
+Example C03_F5_refuted :
+  exists t, exec DGlobal 3000 f5_prog = Done t /\ ncl_b t = false /\ okF t = true /\ okK t = true /\ C03_ok t = false.
+Proof. eexists. split; [vm_compute; reflexivity|]. repeat split; vm_compute; reflexivity. Qed.
+
+Example C03_F7_refuted :
+  exists t, exec DGlobal 3000 f7_prog = Done t /\ ncl_b t = false /\ okF t = true /\ okK t = true /\ C03_ok t = false.
+Proof. eexists. split; [vm_compute; reflexivity|]. repeat split; vm_compute; reflexivity. Qed.
+
+Example C03_selfcycle_refuted :
+  exists t, exec DGlobal 3000 selfcycle_prog = Done t /\ ncl_b t = false /\ okF t = true /\ okK t = true /\ C03_ok t = false.
+Proof. eexists. split; [vm_compute; reflexivity|]. repeat split; vm_compute; reflexivity. Qed.
